@@ -59,10 +59,18 @@ pub fn stack_net(rng: &mut Rng) -> NetCfg {
     let act = |rng: &mut Rng| *rng.pick(&[Act::Tanh, Act::Sigmoid, Act::Leaky, Act::Relu]);
     let mut layers = Vec::new();
     let depth = rng.range(3, 6);
+    // in most stacks a wide margin is followed by a narrower one on a padded tensor of the same
+    // shape (k3 p2 then k3 p1: both padded to (h+4) x (w+4))
+    let motif_at = if rng.chance(0.75) { rng.range(0, 2) } else { usize::MAX };
+    let mut forced: Vec<(bool, usize, usize)> = Vec::new();
     while layers.len() < depth {
-        let conv = rng.chance(0.7);
-        let k = *rng.pick(&[1usize, 3, 3]);
-        let p = rng.range(0, 2);
+        if layers.len() == motif_at && h + 2 <= 9 && w + 2 <= 9 {
+            forced = vec![(true, 3, 1), (true, 3, 2)];
+        }
+        let (conv, k, p) = match forced.pop() {
+            Some(f) => f,
+            None => (rng.chance(0.7), *rng.pick(&[1usize, 3, 3]), rng.range(0, 2)),
+        };
         let (nh, nw) = if conv { (h as i64 + 2 * p as i64 - k as i64 + 1, w as i64 + 2 * p as i64 - k as i64 + 1) } else { (h as i64 - 1 + k as i64 - 2 * p as i64, w as i64 - 1 + k as i64 - 2 * p as i64) };
         if nh < 2 || nw < 2 || nh > 9 || nw > 9 {
             continue;
